@@ -555,7 +555,7 @@ pub fn gen_trace(prop: Prop, seed: u64) -> Trace {
                     5 => nn + 1,
                     _ => r.below(nn + 4),
                 };
-                let mut op = Op::new(Collect, &[li, c, r.below(8), r.below(12), r.below(4)]);
+                let mut op = Op::new(Collect, &[li, c, r.below(9), r.below(12), r.below(4)]);
                 if r.chance(1, 6) {
                     let k = if r.chance(1, 2) { fault_k_rel(r, nn) } else { r.below(nn.min(40) + 2) };
                     op.faults.push((Seam::SrcNext, k));
@@ -618,7 +618,7 @@ pub fn gen_trace(prop: Prop, seed: u64) -> Trace {
                     op.args[3] = (3 + r.below(3)) << 1;
                     if r.chance(1, 2) {
                         op.args[1] = r.below(nn + 4);
-                        op.args[2] = r.below(8);
+                        op.args[2] = r.below(9);
                     }
                 }
                 if matches!(kind, Map | Zip | Fold) && r.chance(2, 3) {
